@@ -83,7 +83,7 @@ def structured_tables(k):
 def wide_tables(rng):
     """Tables wider than a machine word (bitset ints > 64 bits)."""
     out = []
-    for n, m in ((66, 4), (1, 70), (3, 130), (70, 1), (130, 3), (2, 65), (65, 2)):
+    for n, m in ((300, 3), (66, 4), (1, 70), (3, 130), (70, 1), (130, 3), (2, 65), (65, 2), (3, 300)):
         rows = [list(r) for r in random_table(rng, n, m, rng.choice((0.5, 0.8, 0.95)))]
         # the last object / property must not be universal (its covers are the ones only the last atom generates), nor the first
         rows[-1][0] = False
